@@ -117,11 +117,44 @@ CHECKS['C12'] = dict(
          'raise; the degenerate empty value list is proved to be encoded as count 0.',
     note='"Accepted implies faithful" is the conjunction of the other checks. Non-ASCII rejection is the call-site contract of C06.')
 
-NOT_APPLICABLE = [
-    {'property_id': p, 'reason': 'check under construction in this round (see DESIGN.md section 4); not claimed yet'}
-    for p in ['C05', 'C13', 'C14', 
-              'C18', 'C20']
-]
+CHECKS['C05'] = dict(
+    smt=True,
+    text='The item obligation of C04 compares every decoded value with what was assigned through the public setter (integers over '
+         'the full code range, symbolic short text, references as the identity of the object passed, status, dimensions, units); the '
+         'four assignment routes are proved equivalent for symbolic text and never-assigned attributes decode as absent; write-time '
+         'defaults of channel / origin / parameter / computation are proved to be the only additions; DTIME fields symbolically plus '
+         'the millisecond rounding as an IEEE-754 query; float(int).is_integer() lemma.',
+    note='Float and date-time values are concrete examples (struct / datetime C code); strptime parsing and local-time interpretation of '
+         'naive datetimes are outside; text longer than 3 characters has abstract content.')
+CHECKS['C13'] = dict(
+    text='The real spacing/direction function on a value-level integer array stub (same-dtype wrapping np.diff validated against numpy): '
+         'for all 6 integer dtypes, 1..3 rows and ALL values of the dtype, uniform differences give exactly the signed true difference, '
+         'direction is the monotonic sense, a single row gives no spacing; the assignment logic (index type or not, user-supplied '
+         'min/max/spacing/direction kept, units copied, refusal in the high-compatibility mode) over all flag combinations.',
+    note='The near-uniform float tolerance test is outside the claim: the stub returns an arbitrary boolean for it and nothing is asserted '
+         'about the spacing in that branch; float indices / NaN are outside. F9 (values of the first write persist) is a recorded known finding.')
+CHECKS['C14'] = dict(
+    text='Per state carrier: memoised functions are found by introspection and decided by two obligations (only immutable values reach a '
+         'memo - guards on every encode path; equal cache keys give equal uncached results over a value domain with 1 / 1.0 / True '
+         'collisions), because CrossHair bypasses lru_cache; cached object names after rename / re-origin with symbolic identity; '
+         'encode-step idempotence for every attribute signature; merged data not retained; mode flag restored; per-class type byte; '
+         'clock / RNG consulted iff the value was not supplied; derived frame values (F9 known finding).',
+    note='No second OS process is run: the claim is that no carrier listed in DESIGN appendix B leaks. F9 is open.')
+CHECKS['C18'] = dict(
+    text='Two logical files built by real add_* calls in six interleavings with symbolic zone-set names and explicit/default origin '
+         'reference: either refused, or each file opens with its own header in creation order, its sets hold only its own objects and '
+         'every object carries an origin of its own file; two frames with symbolic row counts and chunk sizes are numbered independently '
+         'from 1 and carry only their own channels.',
+    note='F12 (same set class and name in two logical files gives one shared set object) is a recorded known finding, excluded by predicate '
+         'and decided by an existence obligation. Frame data rides on the npstub contract.')
+CHECKS['C20'] = dict(
+    text='For every item class and four kinds of rejection a constructor call that raises leaves the set exactly as it was and a same-named '
+         'object added afterwards gets the copy number it would have had; add_* calls rejected for an enumeration value, a reference, a '
+         'cast dtype or a data argument leave no object, no data and no dataset name behind; encode-step idempotence (a write-time default '
+         'must not make the next write fail).',
+    note='A write that fails after the data-dependent set-up and is then repeated shares the carrier of F9 (known finding).')
+
+NOT_APPLICABLE = []   # every property is decided by this technique; parts out of its reach are listed per check (level_note, DESIGN 4)
 
 NOTES = ('All checks: ./vcheck <id> [--tier quick|thorough]. Exit 0 = no violation among everything decided '
          '(inconclusive obligations are listed in the evidence and on stdout), 1 = replay-confirmed violation, '
